@@ -240,3 +240,9 @@ func sortedU32(m map[uint32]bool) []uint32 {
 	sort.Slice(out, func(i, j int) bool { return out[i] < out[j] })
 	return out
 }
+
+// DropEntity removes an entity and everything attached to it.
+func (v *View) DropEntity(id uint32) { v.dropEntity(id) }
+
+// State renders the view (component types restricted to types; nil = all).
+func (v *View) State(types map[uint32]bool, mods Mods) string { return v.state(types, mods) }
